@@ -255,29 +255,29 @@ def handleRst (variant mode : String) (now : Nat) (subs : List (Nat × BundleId)
   let obs : Obs := ⟨snap, sent.map (fun s => (s.peer, s.id, s.tag))⟩
   let tc (i : BundleId) : String := timeClass now i.time
   let sfx := if mode == "conc" then "-after-restart-concurrent" else "-after-restart"
-  if ¬ decide (SentIdsDistinct obs) then
+  -- store-level clauses first: the wire clause has a known finding in the gap variant
+  let tags := (subs.map (·.1)).filter (fun t => !delivered.contains t)
+  if ¬ decide (StoreKeysDistinct obs) then
+    s!"specfail same-store-key-creation-time-{tc ((obs.stored.head?.map (·.1)).getD default)}{sfx}"
+  else if ¬ decide (∀ e ∈ obs.stored, e.1 = e.2.1) then
+    s!"specfail store-key-differs-from-stored-id{sfx}"
+  else if ¬ decide (FiledOnce tags obs) then
+    let t := (tags.find? (fun t => (snap.filter (·.2.2 = t)).length != 1)).getD 0
+    let i := ((subs.find? (·.1 = t)).map (·.2)).getD default
+    s!"specfail bundle-not-filed-creation-time-{tc i}{sfx}"
+  else if ¬ decide (∀ e ∈ obs.stored, ∀ s ∈ obs.sent, e.2.2 = s.2.2 → s.2.1 = e.1) then
+    s!"specfail stored-id-differs-from-transmitted-id{sfx}"
+  else if ¬ decide (∀ a ∈ obs.sent, ∀ b ∈ obs.sent, a.2.2 = b.2.2 → a.2.1 = b.2.1) then
+    s!"specfail copies-of-one-bundle-carry-different-ids{sfx}"
+  else if sent.any (fun s => s.look != "F") then
+    s!"specfail transmitted-copy-not-filed-under-its-id-creation-time-{tc ((sent.find? (fun s => s.look != "F")).map (·.id)).get!}{sfx}"
+  else if ¬ decide (SentIdsDistinct obs) then
     let bad := obs.sent.find? (fun a => obs.sent.any (fun b => a.2.2 != b.2.2 && a.2.1 == b.2.1))
     let i := (bad.map (·.2.1)).getD default
     -- the number of a bundle that left the store before the restart is free again: its own input class
     let cls := if variant == "gap" && obs.sent.any (fun a => delivered.contains a.2.2 && a.2.1 == i)
       then "-number-of-a-bundle-delivered-before-the-restart" else sfx
     s!"specfail same-id-on-wire-creation-time-{tc i}{cls} id={i.source}~{i.time}~{i.seq}"
-  else if ¬ decide (StoreKeysDistinct obs) then
-    s!"specfail same-store-key-creation-time-{tc ((obs.stored.head?.map (·.1)).getD default)}{sfx}"
-  else if ¬ decide (∀ e ∈ obs.stored, e.1 = e.2.1) then
-    s!"specfail store-key-differs-from-stored-id{sfx}"
-  else if ¬ decide (∀ e ∈ obs.stored, ∀ s ∈ obs.sent, e.2.2 = s.2.2 → s.2.1 = e.1) then
-    s!"specfail stored-id-differs-from-transmitted-id{sfx}"
-  else if ¬ decide (∀ a ∈ obs.sent, ∀ b ∈ obs.sent, a.2.2 = b.2.2 → a.2.1 = b.2.1) then
-    s!"specfail copies-of-one-bundle-carry-different-ids{sfx}"
-  else
-  let tags := (subs.map (·.1)).filter (fun t => !delivered.contains t)
-  if ¬ decide (FiledOnce tags obs) then
-    let t := (tags.find? (fun t => (snap.filter (·.2.2 = t)).length != 1)).getD 0
-    let i := ((subs.find? (·.1 = t)).map (·.2)).getD default
-    s!"specfail bundle-not-filed-creation-time-{tc i}{sfx}"
-  else if sent.any (fun s => s.look != "F") then
-    s!"specfail transmitted-copy-not-filed-under-its-id-creation-time-{tc ((sent.find? (fun s => s.look != "F")).map (·.id)).get!}{sfx}"
   else "ok"
 
 def handle (line : String) : String :=
